@@ -52,7 +52,7 @@ def run():
                    'harness/h_sorted.cpp; Qt containers and std::find_if are modelled, not verified']
     chk.assumptions = ['handlers passed to the typed calls are non-null (null is ignored by every call)',
                        'only the typed calls of the property are used (generic append/insertBetween* are outside C17)']
-    proof_ok = chk.proof(vlib.proof_leg('Properties_C17', ['sorted']))
+    proof_ok = chk.proof(vlib.proof_leg('Properties_C17', ['sorted', 'pipeline']))
     model = vlib.build_model('sorted')
     impl = vlib.build_harness('sorted')
     thorough = chk.tier == 'thorough'
